@@ -97,6 +97,7 @@ func (p *ProjectRunner) Run() error {
 	log.Debug().Msgf("Spinning up %d processes. Order: %q", len(runOrder), nameOrder)
 	for _, proc := range runOrder {
 		newConf := proc
+		verifYield("Run.loop", proc.ReplicaName)
 		p.runProcess(&newConf)
 	}
 	p.waitGroup.Wait()
@@ -139,17 +140,21 @@ func (p *ProjectRunner) runProcess(config *types.ProcessConfig) {
 		withIsMain(isMain),
 		withExtraArgs(extraArgs),
 	)
+	verifInstance(process)
 	p.addRunningProcess(process)
 	p.waitGroup.Add(1)
 	go func(proc *Process) {
 		defer p.removeRunningProcess(proc)
 		defer p.waitGroup.Done()
+		defer verifYield("runner.afterRun", proc.getName())
+		verifYield("runner.spawned", proc.getName())
 		if err = p.waitIfNeeded(proc.procConf); err != nil {
 			log.Error().Msgf("Error: %s", err.Error())
 			log.Error().Msgf("Error: process %s won't run", proc.getName())
 			proc.wontRun()
 			p.onProcessSkipped(proc.procConf)
 		} else {
+			verifYield("runner.released", proc.getName())
 			exitCode := proc.run()
 			p.addDoneProcess(proc)
 			p.onProcessEnd(exitCode, proc.procConf)
@@ -337,6 +342,7 @@ func (p *ProjectRunner) StartProcess(name string) error {
 		log.Error().Msgf("Process %s is already running", name)
 		return fmt.Errorf("process %s is already running", name)
 	}
+	verifYield("start.afterCheck", name)
 	if processConfig, ok := p.project.Processes[name]; ok {
 		p.runProcess(&processConfig)
 	} else {
@@ -396,6 +402,7 @@ func (p *ProjectRunner) RestartProcess(name string) error {
 		}
 		time.Sleep(proc.getBackoff())
 	}
+	verifYield("restart.afterStop", name)
 
 	if processConfig, ok := p.project.Processes[name]; ok {
 		p.runProcess(&processConfig)
@@ -537,6 +544,7 @@ func (p *ProjectRunner) shutDownAndWait(shutdownOrder []*Process) {
 }
 
 func (p *ProjectRunner) ShutDownProject() error {
+	verifYield("shutdown.enter", "")
 	p.runProcMutex.Lock()
 	defer p.runProcMutex.Unlock()
 
@@ -567,6 +575,7 @@ func (p *ProjectRunner) ShutDownProject() error {
 		proc.prepareForShutDown()
 	}
 
+	verifYield("shutdown.afterPrepare", "")
 	p.shutDownAndWait(shutdownOrder)
 	p.cancelAppFn()
 	return nil
@@ -637,6 +646,7 @@ func (p *ProjectRunner) UnSubscribeLogger(name string, observer pclog.LogObserve
 }
 
 func (p *ProjectRunner) ScaleProcess(name string, scale int) error {
+	verifYield("scale.enter", name)
 	if scale < 1 {
 		err := fmt.Errorf("cannot scale process %s to a negative or zero value %d", name, scale)
 		log.Err(err).Msg("scale failed")
@@ -936,6 +946,7 @@ func NewProjectRunner(opts *ProjectOpts) (*ProjectRunner, error) {
 }
 
 func (p *ProjectRunner) UpdateProject(project *types.Project) (map[string]string, error) {
+	verifYield("update.enter", "")
 	newProcs := make(map[string]types.ProcessConfig)
 	delProcs := make(map[string]types.ProcessConfig)
 	updatedProcs := make(map[string]types.ProcessConfig)
